@@ -80,3 +80,15 @@ func init() {
 	prop("C16", "C19-R1")
 	prop("C20", "C14-R1")
 }
+
+func init() {
+	prop("C17", "C17-R3")
+	prop("C19", "C17-R3")
+}
+
+func init() {
+	prop("C08", "C08-R3")
+	prop("C04", "C04-R3")
+	prop("C07", "C07-R4")
+	prop("C17", "C07-R4")
+}
